@@ -1,7 +1,10 @@
 """C18 — diff, log and ls -l tell the true history of an object."""
 from vlib import histprop, oracles
 from vlib.props import _hist_common as hc
-from vlib.props._hist_common import TRUSTED_BASE, ASSUMPTIONS, CORRESPONDENCE, BUDGET
+from vlib.props._hist_common import TRUSTED_BASE, ASSUMPTIONS, CORRESPONDENCE
+from vlib.props import _hist_common as _hc0
+# history observations (log, file log, diffs of version pairs) make every step several times as expensive
+BUDGET = {"quick": dict(_hc0.BUDGET["quick"], histories=220), "thorough": _hc0.BUDGET["thorough"]}
 
 RULE = ("operation histories (new/cp/mv external+internal/rm/reset/commit/upgrade/purge over 1-2 objects, all layouts, both staging "
         "placements) generated interactively against the implementation so that sources, globs and destinations hit existing paths; "
